@@ -42,12 +42,30 @@ func coqOptS(p *string) string {
 	return "(Some " + vh.CoqString(*p) + ")"
 }
 
-// modelName maps a registered field name to the model's attribute name; unregistered names get a "?".
-func modelName(field, name string, attrs []string) string {
-	if a, ok := attrOf(field, name, attrs); ok {
+// modelSortName maps a registered sort field name to the model's attribute name; unregistered names
+// get a "?" (the model has one sort field per attribute: the implementations differ only in how the
+// value is fetched).  Filter fields are passed to the model under their registered names together with
+// their implementation (see coqCfg).
+func modelSortName(field, name string) string {
+	if a, ok := attrOf(field, name, sortAttrs); ok {
 		return a
 	}
 	return "?" + name
+}
+
+var coqImpl = map[string]string{"plain": "IPlain", "exp": "IExpensive", "batch": "IBatch", "fb": "IFallback"}
+
+func coqCfg(c *Case) string {
+	if c.Field == "bareI" {
+		return "(mk_cfg [] [] " + vh.CoqBool(c.Flag) + ")"
+	}
+	var ffs []string
+	for _, a := range textAttrs {
+		for _, im := range impls {
+			ffs = append(ffs, fmt.Sprintf("mk_ff %s %s %s", vh.CoqString(a+"_"+im), vh.CoqString(a), coqImpl[im]))
+		}
+	}
+	return "(mk_cfg " + vh.CoqList(ffs) + " [\"n0\"; \"n1\"; \"s0\"] " + vh.CoqBool(c.Flag) + ")"
 }
 
 func coqArgs(field string, a Args) string {
@@ -55,13 +73,13 @@ func coqArgs(field string, a Args) string {
 	if a.FilterFields != nil {
 		xs := make([]string, len(*a.FilterFields))
 		for i, f := range *a.FilterFields {
-			xs[i] = vh.CoqString(modelName(field, f, textAttrs))
+			xs[i] = vh.CoqString(f)
 		}
 		ff = "(Some " + vh.CoqList(xs) + ")"
 	}
 	sb := "None"
 	if a.SortBy != nil {
-		sb = "(Some " + vh.CoqString(modelName(field, *a.SortBy, sortAttrs)) + ")"
+		sb = "(Some " + vh.CoqString(modelSortName(field, *a.SortBy)) + ")"
 	}
 	desc := a.SortOrder != nil && *a.SortOrder == "desc"
 	return fmt.Sprintf("(mk_args %s %s %s %s %s %s %s %s)", coqOptZ(a.First), coqOptZ(a.Last), coqOptS(a.After), coqOptS(a.Before),
@@ -83,10 +101,7 @@ func coqObs(r pageResult) string {
 }
 
 func coqCase(c *Case, pages []pageResult) string {
-	cfg := "(mk_cfg [\"t0\"; \"t1\"; \"t2\"] [\"n0\"; \"n1\"; \"s0\"])"
-	if c.Field == "bareI" {
-		cfg = "(mk_cfg [] [])"
-	}
+	cfg := coqCfg(c)
 	nodes := make([]string, len(c.Items))
 	for i, it := range c.Items {
 		nodes[i] = coqNode(c.Field, it)
@@ -116,7 +131,7 @@ func isASCII(s string) bool {
 
 // wellFormed: the hypotheses of the theorems, evaluated on every case (unique keys, known field).
 func wellFormed(c *Case) string {
-	if c.Field != "itemsI" && c.Field != "itemsS" && c.Field != "bareI" {
+	if c.Field != "itemsI" && c.Field != "itemsS" && c.Field != "itemsP" && c.Field != "bareI" {
 		return "unknown field"
 	}
 	if c.Kind != "page" && c.Kind != "walkf" && c.Kind != "walkb" {
